@@ -4,29 +4,38 @@ permutation with exact LCPs (or runs out of fuel), for every parameter set and e
 -/
 import TlxVerif.Proofs.C04Sample
 namespace TlxVerif.C04
+variable {af : Bool}
 
-theorem sortM_recOk {env : Env} (henv : EnvOk env) : ∀ fuel, RecOk (sortM env fuel) := by
+/-- every call of the model is correct; with `af = false`: and does not run out of fuel when the
+fuel is at least the measure `mu` of the call -/
+theorem sortM_recOk {env : Env} (henv : EnvOk env) : ∀ fuel, RecOk af (fuel + 1) (sortM env fuel) := by
   intro fuel
   induction fuel with
-  | zero => intro mode strs p _ _; exact rfl
+  | zero =>
+    intro mode strs p _ _ hmu
+    refine ⟨?_, rfl⟩
+    cases af with
+    | true => rfl
+    | false => have := hmu rfl; have := mu_pos mode strs p.length; omega
   | succ fuel ih =>
-    intro mode strs p hr hpre
+    intro mode strs p hr hpre hmu
+    have ih' : RecOk af (mu mode strs p.length) (sortM env fuel) := ih.mono (fun e => by have := hmu e; omega)
     cases mode with
     | enq =>
       simp only [sortM]
       by_cases hb : env.isBig strs.length = true
       · simp only [hb, if_true]
         have : 1 ≤ strs.length := henv.big _ hb
-        exact ih .big strs p hr (List.length_pos_iff.1 (by omega))
+        exact ih' .big strs p hr (List.length_pos_iff.1 (by omega)) (fun _ => by simp only [mu, Mode.rank]; omega)
       · simp only [hb, if_false]
         by_cases hs : strs.length ≥ env.p.smallsort
         · simp only [hs, if_true]
           have := henv.small
-          exact ih .seqss strs p hr (List.length_pos_iff.1 (by omega))
+          exact ih' .seqss strs p hr (List.length_pos_iff.1 (by omega)) (fun _ => by simp only [mu, Mode.rank]; omega)
         · simp only [hs, if_false]
-          exact ih .mkqsTop strs p hr trivial
-    | big => exact sampleBody_safe henv ih (Or.inl rfl) hr hpre
-    | seqss => exact sampleBody_safe henv ih (Or.inr rfl) hr hpre
+          exact ih' .mkqsTop strs p hr trivial (fun _ => by simp only [mu, Mode.rank]; omega)
+    | big => exact sampleBody_safe henv (Or.inl rfl) ih' hr hpre
+    | seqss => exact sampleBody_safe henv (Or.inr rfl) ih' hr hpre
     | mkqsTop =>
       simp only [sortM]
       by_cases hi : strs.length < env.p.inssort
@@ -34,8 +43,8 @@ theorem sortM_recOk {env : Env} (henv : EnvOk env) : ∀ fuel, RecOk (sortM env 
         exact Safe.pure (insSort_good hr)
       · simp only [hi, if_false]
         have := henv.ins
-        exact ih .mkqs strs p hr (List.length_pos_iff.1 (by omega))
-    | mkqs => exact mkqsBody_safe henv ih hr hpre
+        exact ih' .mkqs strs p hr (List.length_pos_iff.1 (by omega)) (fun _ => by simp only [mu, Mode.rank]; omega)
+    | mkqs => exact mkqsBody_safe henv ih' hr hpre
     | inscache => exact insCacheBody_safe hr
 
 /-- **End-to-end correctness of the functional model of pS5.**  For NUL-free strings, every
@@ -44,9 +53,20 @@ asks for positive thresholds, a tree depth the classifiers support, and sample i
 range), `sortAll` returns a permutation of the input that is sorted in unsigned-byte order
 together with the exact LCP array — or runs out of fuel; it never reads out of bounds. -/
 theorem sortAll_safe {env : Env} (henv : EnvOk env) (fuel : Nat) (strs : List Str) (hnf : ∀ s ∈ strs, nulFree s) :
-    Safe (sortAll env fuel strs) (SortedLcp strs) := by
+    Safe true (sortAll env fuel strs) (SortedLcp strs) := by
   have hr : RangeOk [] strs := fun s hs => ⟨hnf s hs, s, rfl⟩
-  exact sortM_recOk henv fuel .enq strs [] hr trivial
+  exact sortM_recOk henv fuel .enq strs [] hr trivial (fun e => by cases e)
+
+/-- **The recursion of pS5 terminates**: with fuel `fuelFor strs` (or more) the model does not run
+out of fuel, for every parameter set and every chooser.  The measure: every recursive call either
+misses a string of its caller's range (the one a splitter / the pivot was read from) or lies 8
+characters deeper in all its strings. -/
+theorem sortAll_total {env : Env} (henv : EnvOk env) {fuel : Nat} (strs : List Str) (hnf : ∀ s ∈ strs, nulFree s)
+    (hfuel : fuelFor strs ≤ fuel) : ∃ r, sortAll env fuel strs = .ok r ∧ SortedLcp strs r := by
+  have hr : RangeOk [] strs := fun s hs => ⟨hnf s hs, s, rfl⟩
+  refine Safe.total (sortM_recOk (af := false) henv fuel .enq strs [] hr trivial (fun _ => ?_))
+  simp only [mu, Mode.rank, List.length_nil]
+  unfold fuelFor at hfuel; omega
 
 /-- two sorted permutations of the same strings are the same list -/
 theorem sorted_perm_unique : ∀ (a b : List Str), a.Perm b → a.Pairwise (fun x y => strLe x y = true) →
